@@ -2,49 +2,76 @@
 (* C11 -- UniformMeshGenerator.generateCommonMesh on a small core: _computeAverageAxialMesh (average1DWithinTolerance
    over the assemblies that have as many mesh points as the reference assembly) followed by _decuspAxialMesh.
 
-   A case is a core of three assemblies of height HC (all points in whole units; results are in HALF units because two
-   meshes are averaged):
-     A1  fuel, centre (the reference assembly), blocks  lower | fuel | upper           tops <<f[1], f[2], HC>>
-     A2  control, blocks lower | control | upper  (+ a split of the upper block when c4 > 0: then A2 has four mesh points
-         and is left out of the average, but its control boundaries still enter the decusping)
-     A3  fuel, four blocks  lower | fuel | upper | top                                  tops <<g[1], g[2], g[3], HC>>
-         (never averaged -- four points -- but its fuel boundaries enter the decusping)
+   A case is a core of two or three assemblies of height HC, each [t |-> block tops in whole units, b |-> index of its
+   material block] (results are in HALF units because at most two meshes are averaged):
+     a1  fuel, centre (the reference assembly)      a2  control      a3  fuel (t = <<>>: absent)
+   Families of cases (constant Families):
+     "avg"     a1 = lower|fuel|upper, a2 = lower|control|upper (+ a split of the upper block: four points, then a2 is left
+               out of the average but its control boundaries still enter the decusping), a3 = lower|fuel|upper|top (never
+               averaged, its fuel boundaries enter the decusping)                 -- two meshes averaged, tolerance filter
+     "planes"  a1 = lower|lower'|fuel|upper  or  lower|fuel|upper|upper'  (a regular mesh plane that is NOT a material
+               boundary below or above the fuel), a2 = lower|control|upper with every position of the control bottom and top
+               relative to that plane (on it, within the minimum size above or below it, far from it), no a3
+     "planes2" a1 = lower|lower'|fuel|upper|upper' (planes on both sides), a2 as in "planes", no a3
    min is the requested minimum cell size in half units.
 
    Outcomes: "avg" (average1DWithinTolerance raised: nothing near the mean), "anchors" (_filterMesh raised: two anchors
    closer than the minimum), or the mesh.  The clauses of the property are invariants of the result. *)
 EXTENDS MeshFilterDefs, Json
 
-CONSTANTS HC, Mins
+CONSTANTS HC, Mins, Families
 VARIABLE c
-Pairs  == {p \in (1..(HC - 1)) \X (1..(HC - 1)) : p[1] < p[2]}
-Trips  == {t \in (1..(HC - 1)) \X (1..(HC - 1)) \X (1..(HC - 1)) : t[1] < t[2] /\ t[2] < t[3]}
-Cases == {[f |-> f, k |-> k, c4 |-> x, g |-> g, min |-> m] : f \in Pairs, k \in Pairs, x \in 0..(HC - 1), g \in Trips, m \in Mins}
-Init == c \in Cases /\ (c.c4 = 0 \/ c.c4 > c.k[2])
+Inner == 1..(HC - 1)
+Pairs  == {p \in Inner \X Inner : p[1] < p[2]}
+Trips  == {t \in Inner \X Inner \X Inner : t[1] < t[2] /\ t[2] < t[3]}
+Quads  == {t \in Inner \X Inner \X Inner \X Inner : t[1] < t[2] /\ t[2] < t[3] /\ t[3] < t[4]}
+Asm(t, b) == [t |-> t, b |-> b]
+None3 == Asm(<<>>, 0)
+CtrlOf(k, x) == IF x = 0 THEN Asm(<<k[1], k[2], HC>>, 2) ELSE Asm(<<k[1], k[2], x, HC>>, 2)
+CasesAvg == {[fam |-> "avg", a1 |-> Asm(<<f[1], f[2], HC>>, 2), a2 |-> CtrlOf(k, x), a3 |-> Asm(<<g[1], g[2], g[3], HC>>, 2), min |-> m] :
+                f \in Pairs, k \in Pairs, x \in 0..(HC - 1), g \in Trips, m \in Mins}
+CasesPlanes == {[fam |-> "planes", a1 |-> Asm(<<t[1], t[2], t[3], HC>>, b), a2 |-> CtrlOf(k, 0), a3 |-> None3, min |-> m] :
+                t \in Trips, b \in {2, 3}, k \in Pairs, m \in Mins}
+CasesPlanes2 == {[fam |-> "planes2", a1 |-> Asm(<<t[1], t[2], t[3], t[4], HC>>, 3), a2 |-> CtrlOf(k, 0), a3 |-> None3, min |-> m] :
+                t \in Quads, k \in Pairs, m \in Mins}
+Cases == (IF "avg" \in Families THEN CasesAvg ELSE {}) \cup (IF "planes" \in Families THEN CasesPlanes ELSE {})
+         \cup (IF "planes2" \in Families THEN CasesPlanes2 ELSE {})
+Init == c \in Cases /\ (Len(c.a2.t) = 3 \/ c.a2.t[3] > c.a2.t[2])
 Next == UNCHANGED c
 
-Rows == IF c.c4 = 0 THEN << <<c.f[1], c.f[2], HC>>, <<c.k[1], c.k[2], HC>> >> ELSE << <<c.f[1], c.f[2], HC>> >>
-Avg  == AvgTol(Rows, 1, 5, 2)                                  \* tolerance 0.2, means in half units
-FuelSpans == {<<2 * c.f[1], 2 * c.f[2]>>, <<2 * c.g[1], 2 * c.g[2]>>}
-CtrlSpans == {<<2 * c.k[1], 2 * c.k[2]>>}
+Present == SelectSeq(<<c.a1, c.a2, c.a3>>, LAMBDA a : a.t # <<>>)
+Rows == LET same == SelectSeq(Present, LAMBDA a : Len(a.t) = Len(c.a1.t)) IN [i \in 1..Len(same) |-> same[i].t]
+Avg  == AvgTol(Rows, 1, 5, 2)                                  \* tolerance 0.2, means in half units (at most two rows)
+Span(a) == <<2 * (IF a.b = 1 THEN 0 ELSE a.t[a.b - 1]), 2 * a.t[a.b]>>
+FuelSpans == {Span(c.a1)} \cup (IF c.a3.t = <<>> THEN {} ELSE {Span(c.a3)})
+CtrlSpans == {Span(c.a2)}
 Common == SeqSet(Avg.mesh)
 D == Decusp(Common, FuelSpans, CtrlSpans, c.min)
 Outcome == IF ~Avg.ok THEN "avg" ELSE IF ~D.ok THEN "anchors" ELSE "mesh"
-Candidates == Common \cup Bottoms(FuelSpans) \cup Tops(FuelSpans) \cup Bottoms(CtrlSpans) \cup Tops(CtrlSpans)
+Boundaries == Bottoms(FuelSpans) \cup Tops(FuelSpans) \cup Bottoms(CtrlSpans) \cup Tops(CtrlSpans)
+Candidates == Common \cup Boundaries
 
+AtMostTwoRows      == Len(Rows) \in {1, 2}
 StrictlyIncreasing == Outcome = "mesh" => \A i \in 1..(Len(D.mesh) - 1) : D.mesh[i] < D.mesh[i + 1]
 OnlyCandidates     == Outcome = "mesh" => SeqSet(D.mesh) \subseteq Candidates
 NoThinCells        == Outcome = "mesh" => \A i \in 1..(Len(D.mesh) - 1) : D.mesh[i + 1] - D.mesh[i] >= c.min
 KeepsAnchors       == Outcome = "mesh" => SeqSet(D.anchors) \subseteq SeqSet(D.mesh)
 \* the anchored boundaries always contain the lowest fuel bottom and the highest fuel top
 ExtremeFuelAnchored == Outcome = "mesh" => {Min(Bottoms(FuelSpans)), Max(Tops(FuelSpans))} \subseteq SeqSet(D.anchors)
-\* every material boundary is kept or lies closer than min to a kept point
+\* a material boundary that is at least the minimum size away from every other material boundary is anchored, hence kept:
+\* in particular a control bottom / top that sits within the minimum size of a regular (non-material) plane wins over the plane
+IsolatedBoundaryKept ==
+    Outcome = "mesh" => \A x \in Boundaries : (\A y \in Boundaries \ {x} : AbsI(x - y) >= c.min) => x \in SeqSet(D.mesh)
+\* every candidate is kept or lies closer than min to a kept point
 BoundariesKeptOrCrowded ==
     Outcome = "mesh" => \A x \in Candidates \ SeqSet(D.mesh) : \E y \in SeqSet(D.mesh) : AbsI(x - y) < c.min
 \* "fails loudly when two anchors are closer than the minimum": the only anchors that can collide are a fuel bottom and a fuel top
 FailsOnlyOnCloseAnchors ==
     Outcome = "anchors" => \E a \in Bottoms(FuelSpans) \cup Tops(FuelSpans), b \in Bottoms(FuelSpans) \cup Tops(FuelSpans) : a < b /\ b - a < c.min
 TopKept == Outcome = "mesh" => (2 * HC \in SeqSet(D.mesh) \/ \E y \in SeqSet(D.mesh) : AbsI(2 * HC - y) < c.min)
+\* how many cases put a control boundary strictly inside the minimum-size window of a regular plane (printed for non-vacuity)
+NearPlane == {<<x, p>> \in (Bottoms(CtrlSpans) \cup Tops(CtrlSpans)) \X (Common \ Boundaries) : x # p /\ AbsI(x - p) < c.min}
 
-Emit == PrintT(ToJson([c |-> c, outcome |-> Outcome, mesh |-> D.mesh, common |-> Avg.mesh, anchors |-> D.anchors]))
+Emit == PrintT(ToJson([c |-> c, outcome |-> Outcome, mesh |-> D.mesh, common |-> Avg.mesh, anchors |-> D.anchors,
+                       near |-> [above |-> Cardinality({n \in NearPlane : n[1] > n[2]}), below |-> Cardinality({n \in NearPlane : n[1] < n[2]})]]))
 =========================================================================================================
